@@ -1042,10 +1042,17 @@ class PDFDocument:
         parser: PDFParser,
         start: int,
         xrefs: List[PDFBaseXRef],
+        visited: Optional[Set[int]] = None,
     ) -> None:
         """Reads XRefs from the given location."""
         if start < 0:
             raise PDFNoValidXRef("Negative offset of a cross-reference section")
+        if visited is None:
+            visited = set()
+        if start in visited:
+            # /Prev or /XRefStm leads back to a section already read
+            return
+        visited.add(start)
         parser.seek(start)
         parser.reset()
         try:
@@ -1069,11 +1076,11 @@ class PDFDocument:
         log.debug("trailer: %r", trailer)
         if "XRefStm" in trailer:
             pos = int_value(trailer["XRefStm"])
-            self.read_xref_from(parser, pos, xrefs)
+            self.read_xref_from(parser, pos, xrefs, visited)
         if "Prev" in trailer:
             # find previous xref
             pos = int_value(trailer["Prev"])
-            self.read_xref_from(parser, pos, xrefs)
+            self.read_xref_from(parser, pos, xrefs, visited)
 
 
 class PageLabels(NumberTree):
